@@ -181,6 +181,8 @@ def gen_case(rng, pid, uid):
     for _ in range(rng.choice([3, 4, 5, 6, 9])):
         m = rng.choice([x for x in MODES if x != last])
         dw = rng.choice([1, 1, 2, 3, 5, 8, 25]) if pid != "C07" else rng.choice([1, 2, 6, 8, 12])
+        if rng.random() < 0.004:
+            dw = 400            # a long stay in one mode (hundreds of iterations)
         hist.append([m, dw])
         total += dw
         last = m
@@ -189,6 +191,8 @@ def gen_case(rng, pid, uid):
             "robot_classes": robot_classes, "components": comps, "robot_feedbacks": robot_fbs, "modes": modes,
             "history": hist, "disabled_flags": dflags, "super_robot_periodic": rng.random() < 0.3, "plan": {}}
     spec["period_on_instance"] = rng.random() < 0.2
+    if rng.random() < 0.04:
+        spec["uptime_us"] = rng.choice([2 ** 31, 2 ** 32, 10 ** 10, 9 * 10 ** 10])       # the robot has been up for hours
     spec["teleop_in_auto_as_int"] = rng.random() < 0.3
     if rng.random() < (0.4 if pid == "C07" else 0.1):
         # some periodic methods wrap their body in `with self.consumeExceptions():` and carry on after the block
@@ -1042,6 +1046,10 @@ def run_case(spec, acc):
         V.ev("statemachine-component")
     if spec.get("omit_hooks"):
         V.ev("robot-without-some-mode-hooks")
+    if spec.get("uptime_us"):
+        V.ev("fpga-time-of-hours")
+    if any(dw_ >= 400 for _m, dw_ in spec["history"]):
+        V.ev("hundreds-of-iterations-in-one-mode")
     if spec.get("consume_hooks"):
         V.ev("periodic-method-uses-consumeExceptions")
         if any(e[0] == "raise" and e[1][2:] in spec["consume_hooks"] for e in run.log):
